@@ -1132,7 +1132,55 @@ def check_frame(I: Interp, c, pre: State, st: State, node):
         if is_init and name == "self":
             continue
         walk(v0, name, 0)
+    # stores into fields of FOREIGN (opaque) objects: each one outside the modifies clause must leave the field as it was
+    log0, log1 = pre.heap.get("$opq", {}), st.heap.get("$opq", {})
+    if log1 is not log0:
+        covered = _covered_opaque(I, c, pre)
+        for attr, entries in log1.items():
+            for term, val in entries[len(log0.get(attr, [])):]:
+                if isinstance(term, str):
+                    I.oblige(st, False, "M", f"frame[<foreign objects>.{attr}]", node)   # written in a loop: any object
+                    continue
+                if any(a in (attr, "*") and t.eq(term) for t, a in covered):
+                    continue
+                cls = st.heap.get("$opq_cls", {}).get(term.get_id())
+                try:
+                    oldv = I.opaque_attr(Opaque(term, cls), attr, pre)
+                    goal = I.equal(oldv, val, st)
+                except Unsupported:
+                    goal = False
+                I.oblige(st, goal, "M", f"frame[<foreign object>.{attr}]", node)
     # ghost variables are specification state: no frame obligation for them
+
+
+def _covered_opaque(I: Interp, c, pre: State):
+    """(object term | None for `.*`-less wildcard, field) pairs of foreign objects named by the modifies clause."""
+    out = []
+    s = pre.fork()
+    I.in_contract += 1
+    try:
+        for m in c.modifies:
+            m = m.strip()
+            if m.endswith("[*]"):
+                continue
+            star = m.endswith(".*")
+            node = parse_expr(m[:-2] if star else m)
+            try:
+                if star:
+                    v = I.eval(node, s)
+                    v = v.val if isinstance(v, Opt) else v
+                    if isinstance(v, Opaque):
+                        out.append((v.term, "*"))
+                elif isinstance(node, ast.Attribute):
+                    b = I.eval(node.value, s)
+                    b = b.val if isinstance(b, Opt) else b
+                    if isinstance(b, Opaque):
+                        out.append((b.term, node.attr))
+            except Unsupported:
+                continue
+    finally:
+        I.in_contract -= 1
+    return out      # (term, field) with field '*' = every field of that object
 
 
 def _unmangle(f):
